@@ -18,6 +18,21 @@ FRAGS = {'color.rs': kani.FRAGMENTS['color.rs']}
 
 def run(res, args):
     kani.check_property(res, 'c19', FRAGS, SPECS)
+    from . import mir_obligations as O
+    fns, consts = O.load()
+
+    def replay(ob, d):
+        if ob['name'] == 'c19_mir_svg_table' and ob.get('keyword') is not None:
+            rep, info = O.replay_color_keyword(ob['keyword'], ob.get('want'), d)
+            return rep, info, {'site': 'SVG_NAMED_COLORS', 'keyword': ob['keyword']}
+        # dispatch refutations: probe the three non-table arms through the CLI
+        failed = []
+        for kw, want in (('transparent', [0, 0, 0]), ('TransParent', [0, 0, 0]), ('#102030', [16, 32, 48]), ('Red', [255, 0, 0]), ('red', [255, 0, 0]), ('nosuchcolour', None), ('#12', None)):
+            rep, info = O.replay_color_keyword(kw, want, d)
+            if rep:
+                failed.append(info)
+        return bool(failed), {'failed_probes': failed}, {'site': 'Color::from_str', 'probe': failed[0]['keyword'] if failed else None}
+    O.merge(res, O.c19_color(fns, consts), res.coverage, replay, 'color')
     res.assumptions += [
         'Outside the claim: HashMap lookup + to_ascii_lowercase of the keyword path and unknown-name rejection as executed code (Kani ICE on hashbrown; decided only structurally on the MIR), alpha=255 for opaque colours (impl From<Color> for Gadget, HashMap::from)',
         "Qt's rule for the four listed hex forms is the independently written qt_hex() oracle in harness/color.rs",
